@@ -254,6 +254,8 @@ void ezc3d::ParametersNS::Parameters::write(std::fstream &f) const
     int nBlocksToNext = int(actualPos - pos-2)/512;
     if (int(actualPos - pos-2) % 512 > 0)
         ++nBlocksToNext;
+    if (nBlocksToNext > 255) // The number of blocks is stored on one byte
+        throw std::range_error("The parameters are too large to be written in a c3d file (255 blocks of 512 bytes at most)");
     f.write(reinterpret_cast<const char*>(&nBlocksToNext), ezc3d::BYTE);
     f.seekg(actualPos);
 
